@@ -278,6 +278,27 @@ def atom_pair_histories(tier):
     return out
 
 
+def samekey_histories(tier):
+    """Every ordered pair inside each 'same key, different truth' family, under every renderer (thorough: every option set),
+    by one instance and by separate calls."""
+    out = []
+    for rid in W.RENDERER_IDS:
+        for oi, opts in enumerate(W.OPTIONS[rid]):
+            if tier != 'thorough' and oi > 0:
+                continue
+            for fam in sorted(D.SAMEKEY_FAMILIES):
+                docs_all = D.SAMEKEY_FAMILIES[fam]
+                n = len(docs_all)
+                seq = []
+                for stride in range(1, n):
+                    for start in range(__import__('math').gcd(n, stride)):
+                        seq += _walk(n, stride, start)
+                docs = [docs_all[x] for x in seq]
+                out.append(('samekey', _docs_history(rid, opts, True, docs)))
+                out.append(('samekey', _docs_history(rid, opts, False, docs)))
+    return out
+
+
 def cross_histories(tier):
     """Every ordered pair of renderer configurations (quick: default options; thorough: every option set), plus a bare
     Document as second party: the first renders every sentinel, then the second does. This is the quantifier's
